@@ -131,6 +131,12 @@ def _prefix(ck, P, cfg):
             ck.violated("C02.2", inst, "src/lp/msg.h", "lp_msg.%s is read on the receive side (%s) but an anti-message neither carries it (offset %d is outside [%d,%d)) nor has it initialised: the receiver acts on stale bytes of a recycled buffer" % (
                 name, sorted(readers[name])[:3], f[name]["off"], lo, hi), cfg)
     ck.expect("C02.2", len(readers), 6, "lp_msg fields read on the receive side")
+    # the anti receive buffer is allocated for an empty payload: the wire must not overwrite the size recorded for it
+    inst = "anti-field:pl_size-not-transmitted"
+    if "pl_size" in inside or (f["pl_size"]["off"] < hi and f["pl_size"]["off"] + f["pl_size"]["size"] > lo):
+        ck.violated("C02.2", inst, "src/lp/msg.h", "lp_msg.pl_size (offset %d) lies inside the transmitted anti-message prefix [%d,%d): the receiver allocates a buffer for an empty payload and records 0, then the receive overwrites it with the payload size of the ORIGINAL message; the tie-break compares that many payload bytes of a buffer that has none, and the buffer is released to the wrong pool" % (f["pl_size"]["off"], lo, hi), cfg)
+    else:
+        ck.holds("C02.2", inst, "src/lp/msg.h", "pl_size lies outside the transmitted prefix: the size recorded by the receiver (0) stands", cfg)
     if f["flags"]["off"] == f["raw_flags"]["off"] and f["flags"]["size"] == f["raw_flags"]["size"]:
         ck.holds("C02.2", "alias", "src/lp/msg.h", "flags and raw_flags occupy the same %d bytes" % f["flags"]["size"], cfg)
     else:
